@@ -15,6 +15,8 @@ for log in sys.argv[1:]:
             continue
         m = re.search(r'/(C\d\d)/(\w+)$', d)
         prop, var = m.group(1), m.group(2)
+        if 'seedout2' in d:
+            var = {'a': 'c', 'b': 'd'}.get(var, var)          # second wave: <prop>_c, <prop>_d
         name = f'{prop}_{var}'
         dst = os.path.join('/verif/seeded', name)
         os.makedirs(dst, exist_ok=True)
